@@ -609,7 +609,8 @@ def case_C16(seed):
     viol = []
     knife = [0]
     kinds = [('relabel', None), ('reorder', None), ('swap', None), ('scale', rnd.choice([-8, -3, -1, 1, 3, 10, 20]))]
-    if case['cfg'].get('max_lattice_width') is None:
+    exact = all(float(c * 1024).is_integer() for v in case['graph'].values() for c in v[0]) and all(float(c * 1024).is_integer() for p in case['trace'] for c in p)
+    if case['cfg'].get('max_lattice_width') is None and exact:      # 'exactly representable': every translated coordinate is exact
         kinds.append(('translate', (rnd.choice([0, 1024.0, -4096.0]), rnd.choice([512.0, 2.0 ** 20, -64.0]))))
     for kind, k in kinds:
         c2 = transform_case(case, kind, rnd, k)
@@ -734,6 +735,12 @@ def case_C19(seed):
     viol = []
     if out[0] != out[1]:
         j = next((i for i, (x, y) in enumerate(zip(out[0], out[1])) if x != y), min(len(out[0]), len(out[1])))
-        viol.append(('C19:debug-logging-changes-result', f"ops {ops}: result #{j} at ERROR {out[0][j] if j < len(out[0]) else None} vs at DEBUG {out[1][j] if j < len(out[1]) else None}",
+        key19 = 'C19:debug-logging-changes-result'
+        x, y = (out[0][j] if j < len(out[0]) else None), (out[1][j] if j < len(out[1]) else None)
+        if isinstance(x, dict) and isinstance(y, dict) and x['idx'] == y['idx'] and x['best'] == y['best'] \
+                and [k for k in x['keys'] if k[-1] == 0] == [k for k in y['keys'] if k[-1] == 0] \
+                and not case['cfg'].get('only_edges', True) and case['cfg'].get('non_emitting_states') and any(o[0] == 'widen' for o in ops):
+            key19 = 'C19:trailing-non-emitting-run-differs-under-debug'
+        viol.append((key19, f"ops {ops}: result #{j} at ERROR {out[0][j] if j < len(out[0]) else None} vs at DEBUG {out[1][j] if j < len(out[1]) else None}",
                      {'case': U.case_repr(case), 'ops': ops, 'error_level': out[0], 'debug_level': out[1]}))
     return {'nontrivial': cut, 'violations': viol, 'sample': {'case': U.case_repr(case), 'ops': ops}}
